@@ -533,6 +533,14 @@ def plan(tier):
         if thorough:
             A3 = alphabet('small', n)[:6] if tag == 'R2x2' else alphabet('tiny', n)[:4]
             batches(fam, [[a, b, d] for a in A3 for b in A3 for d in A3], '%s/len3' % tag, 12)
+    # atmosphere types 0 and 1: the atmosphere layer / atmosphere blocks take part in the name lists
+    for atm in (0, 1):
+        fam = dict(R22, atm=atm)
+        seqs = [[dict(op='rename_layer', layer=0, name='zq')], [dict(op='rename_layer', layer='last', name='zz')],
+                [dict(op='refine_layers', layers=[], factor=2)], [dict(op='refine', sel=[0])], [dict(op='delete_column', col='last')],
+                [dict(op='snap', sel=[1])], [dict(op='rename_column', col=0, name='xyz')]]
+        if thorough: seqs += [[a[0], b[0]] for a in seqs[:4] for b in seqs[:4]]
+        batches(fam, seqs, 'R2x2-atm%d' % atm, 8)
     # targeted sequences: a mesh with really missing connections (direct triangulate_column, a re-added
     # column, a deleted connection), then the repairing operations check(fix=True, silent=True) / reduce
     breakers = [dict(op='triangulate', col=0), dict(op='readd_column', col=0, name='new'), dict(op='delete_connection', which='first'),
